@@ -384,11 +384,11 @@ clear_ret:
 %endrep
 
         ;; Clear first 48 bytes (SHA-384) or 64 bytes (SHA-512) of outer_block
-        vmovdqu [lane_data + _outer_block], ymm0
+        vmovdqu [lane_data + _outer_block_sha512], ymm0
 %if (SHA_X_DIGEST_SIZE == 384)
-        vmovdqa [lane_data + _outer_block + 32], xmm0
+        vmovdqa [lane_data + _outer_block_sha512 + 32], xmm0
 %else
-        vmovdqu [lane_data + _outer_block + 32], ymm0
+        vmovdqu [lane_data + _outer_block_sha512 + 32], ymm0
 %endif
 %endif ;; SAFE_DATA
 
